@@ -25,7 +25,7 @@
 (* "loss" is a connection-loss error (property C25 says which); it is here because nothing may  *)
 (* be lost or repeated across it either.                                                        *)
 (* Bytes are integers; the harness maps them to byte values.                                    *)
-EXTENDS Integers, Sequences, TLC
+EXTENDS Integers, Sequences, FiniteSets, TLC
 
 CONSTANTS Flavors,   \* subset of {"client", "clienttls", "incomer", "incomertls", "serial", "device"}
           Modes,     \* subset of {"tx", "rx", "both"}: which side of the transport a behaviour of the model exercises
@@ -85,8 +85,8 @@ Init == /\ flavor \in Flavors /\ mode \in Modes
         /\ cutoff = FALSE /\ res = None /\ act = Act("Init", <<>>, "", "")
 
 (* ---------------- queueing ---------------- *)
-Queue(m) == /\ m # <<>>
-            /\ txes' = Append(txes, m) /\ queued' = queued \o m
+\* (m may be empty: a zero length message contributes nothing to the stream and must not hold up the queue)
+Queue(m) == /\ txes' = Append(txes, m) /\ queued' = queued \o m
             /\ first' = (IF first = <<>> THEN m ELSE first)
             /\ res' = None /\ act' = Act("Queue", m, "", "") /\ Same0
             /\ UNCHANGED <<wire, wlog, rxbs, rlog, delivered, taken, accepted, connected, cutoff>>
@@ -103,6 +103,14 @@ Pass(q, s) ==
     ELSE LET r == Head(s)
              m == Head(q)
              last == (Tail(s) = <<>>) IN
+         IF m = <<>> THEN
+             \* an empty message: whatever the socket answers short of an error, all (zero) of its bytes are sent and
+             \* the pass goes on with the next message ("if all bytes sent then keep sending")
+             CASE r.k \in {"full", "zero", "block"} ->
+                     LET p == Pass(Tail(q), Tail(s)) IN [q |-> p.q, out |-> p.out, cut |-> p.cut, ok |-> p.ok]
+               [] r.k = "loss" -> [q |-> Tail(q), out |-> <<>>, cut |-> TRUE, ok |-> last /\ ~IsSerial]
+               [] OTHER -> [q |-> q, out |-> <<>>, cut |-> FALSE, ok |-> FALSE]
+         ELSE
          CASE r.k = "full" ->
                  LET p == Pass(Tail(q), Tail(s)) IN [q |-> p.q, out |-> m \o p.out, cut |-> p.cut, ok |-> p.ok]
            [] r.k = "part" ->
@@ -204,8 +212,12 @@ NextMsg(n) == [i \in 1..n |-> Len(queued) + i]
 NextChunk(off, n) == [i \in 1..n |-> Len(delivered) + off + i]
 Fulls(j) == [i \in 1..j |-> Full]
 TxTerminals(m) == {Zero, Block} \cup {Part(k) : k \in 1..(Len(m) - 1)} \cup (IF IsSerial THEN {} ELSE {Loss})
-TxScripts(q) == {Fulls(Len(q))} \cup
-                UNION {{Fulls(j) \o <<t>> : t \in TxTerminals(q[j + 1])} : j \in 0..(Len(q) - 1)}
+RECURSIVE TxScripts(_)
+TxScripts(q) ==
+    IF q = <<>> THEN {<<>>}
+    ELSE IF Head(q) = <<>>
+         THEN {<<a>> \o t : a \in {Full, Block}, t \in TxScripts(Tail(q))} \cup (IF IsSerial THEN {} ELSE {<<Loss>>})
+         ELSE {<<Full>> \o t : t \in TxScripts(Tail(q))} \cup {<<t>> : t \in TxTerminals(Head(q))}
 RxTerminals == IF IsSerial THEN {Block, Empty} ELSE {Block, Closed, Loss}
 Room == BRx - Len(delivered)
 \* scripts of up to MaxChunks chunks (sizes 1 or 2) followed by a terminal answer
@@ -220,6 +232,7 @@ RxOnce == {<<t>> : t \in RxTerminals} \cup {<<Data(NextChunk(0, n))>> : n \in {x
 TxSide == mode # "rx"
 RxSide == mode # "tx"
 Next == \/ \E n \in 1..BLen : Len(queued) + n <= BMsgs * BLen /\ Len(txes) < BMsgs /\ Queue(NextMsg(n))
+        \/ mode = "tx" /\ Len(txes) < BMsgs /\ (\A i \in 1..Len(txes) : txes[i] # <<>>) /\ Queue(<<>>)     \* a zero length message
         \/ first # <<>> /\ queued = first /\ TxSide /\ Len(queued) + Len(first) <= BMsgs * BLen /\ Len(txes) < BMsgs
               /\ Queue(first)    \* the same frame once more, before or after (part of) its first copy went out
         \/ TxSide /\ \E s \in (IF Usable THEN TxScripts(txes) ELSE {<<>>}) : ServiceTx(s)
@@ -238,8 +251,9 @@ Conservation == wire \o Flat(txes) = queued
 WlogEqualsWire == wlog = wire
 \* received chunks are appended to the receive buffer in arrival order, and logged
 RxInOrder == taken \o rxbs = delivered /\ rlog = delivered
-\* no empty message is ever left in the queue by a partial send
-NoEmptyResidue == \A i \in 1..Len(txes) : txes[i] # <<>>
+\* a partial send never leaves an empty residue in the queue (only the caller puts zero length messages there)
+Empties(q) == Cardinality({i \in 1..Len(q) : q[i] = <<>>})
+NoEmptyResidue == [][(act'.a # "Queue") => Empties(txes') <= Empties(txes)]_vars
 \* once cut off a transport neither sends nor receives
 CutoffStops == [][(cutoff /\ ~IsSerial) => (wire' = wire /\ delivered' = delivered /\ cutoff')]_vars
 \* nothing is sent before the transport is connected
